@@ -86,6 +86,10 @@ MUTANTS = [
      "AegeanTools/regions.py",
      "        theta_phi = self.sky2ang(sky)\n",
      "        theta_phi = np.nan_to_num(self.sky2ang(sky))\n", "C10-R8"),
+    ("early return before the polarity inversion (seed C10d)",
+     "AegeanTools/MIMAS.py",
+     "    bigmask = region.sky_within(ra, dec, degin=True)\n",
+     "    bigmask = region.sky_within(ra, dec, degin=True)\n    if not np.any(bigmask):\n        return data\n", "C10-R3"),
 ]
 TWINS = [
     ("vectorised pixel grid", "AegeanTools/MIMAS.py",
@@ -94,6 +98,9 @@ TWINS = [
     ("tilde instead of bitwise_not", "AegeanTools/MIMAS.py",
      "    if not negate:\n        bigmask = np.bitwise_not(bigmask)",
      "    if not negate:\n        bigmask = ~bigmask"),
+    ("early return when the final mask is empty", "AegeanTools/MIMAS.py",
+     "    bigmask = bigmask.reshape(data.shape)\n",
+     "    if not np.any(bigmask):\n        return data\n    bigmask = bigmask.reshape(data.shape)\n"),
 ]
 
 
@@ -382,6 +389,11 @@ def polarity(fnode, negate_value, source_is):
                     block(s.body)
                 elif tv is False:
                     block(s.orelse)
+                elif all(isinstance(b, (ast.Return, ast.Expr, ast.Pass))
+                         for b in s.body) and not s.orelse:
+                    # an early exit that does not touch the masks: judged by
+                    # the frame rule (R3), not by the polarity table
+                    continue
                 else:
                     raise AnalysisError(
                         "C10-R2: branch on %s is not a test of negate" %
@@ -483,6 +495,53 @@ def run(ctx):
               "besides data[mask] = nan the image is modified: unmasked "
               "pixel values would change", node=writes[0] if writes
               else mp.node)
+    # every normal return passes the masked write -- except behind a guard
+    # saying that the FINAL mask selects nothing
+    if ok:
+        from ..cfg import CFG, ENTRY, EXIT
+        g3 = CFG(mp.node)
+        wn = g3.nodes_for_stmt(writes[0])
+        mname = norm(writes[0].targets[0].slice)
+        bypass = g3.path_avoiding(ENTRY, EXIT, set(wn)) if wn else None
+        explained = True
+        why = ""
+        if bypass:
+            explained = False
+            for k_, nd in enumerate(bypass[:-1]):
+                if g3.kind.get(nd) != "if":
+                    continue
+                t_ = g3.stmt[nd].test
+                lab = g3.g[nd][bypass[k_ + 1]].get("label")
+                # `not np.any(M)` / `not M.any()` taken when true
+                inner = t_.operand if isinstance(t_, ast.UnaryOp) and \
+                    isinstance(t_.op, ast.Not) else None
+                anym = inner is not None and isinstance(inner, ast.Call) and (
+                    norm(inner.func) in ("np.any", "numpy.any") and
+                    inner.args and norm(inner.args[0]) == mname or
+                    isinstance(inner.func, ast.Attribute) and
+                    inner.func.attr == "any" and
+                    norm(inner.func.value) == mname)
+                if anym and lab == "T":
+                    later = [st for st in walk_no_nested(mp.node)
+                             if isinstance(st, ast.Assign) and
+                             norm(st.targets[0]) == mname and
+                             st.lineno > g3.stmt[nd].lineno and not (
+                                 # a reshape selects the same pixels
+                                 isinstance(st.value, ast.Call) and
+                                 isinstance(st.value.func, ast.Attribute)
+                                 and st.value.func.attr in (
+                                     "reshape", "ravel", "copy", "astype")
+                                 and norm(st.value.func.value) == mname)]
+                    explained = not later
+                    why = "the guard `%s` tests %s before its final " \
+                        "definition (%s)" % (norm(t_), mname,
+                                             [norm(l_, 50) for l_ in later])
+        ctx.check("C10-R3", mp, "every normal return applies the mask",
+                  explained, "a path returns without `%s`: %s%s -- with "
+                  "negate=False and no pixel inside the region nothing is "
+                  "blanked although everything should be" %
+                  (norm(writes[0]), g3.describe(bypass) if bypass else "",
+                   ("; " + why) if why else ""), node=writes[0])
     rets = [s for s in walk_no_nested(mp.node) if isinstance(s, ast.Return)]
     ctx.check("C10-R3", mp, "returns the input array", all(
         s.value is not None and norm(s.value) == data for s in rets),
